@@ -175,7 +175,7 @@ pub fn merge(seed: u64, cases: u64, st: &mut Stats, drv: &mut Drv) {
         }
         let total: usize = srcs.iter().map(Vec::len).sum();
         let word = gen_word(&mut rng, total + 2);
-        let req = format!("merge srcs={} word={word}", srcs.iter().map(|s| show_ents(s)).collect::<Vec<_>>().join("|"));
+        let req = format!("kmerge srcs={} word={word}", srcs.iter().map(|s| show_ents(s)).collect::<Vec<_>>().join("|"));
         let iters: Vec<_> = srcs.iter().map(|s| s.iter().map(|e| Ok(e.to_internal())).collect::<Vec<_>>().into_iter()).collect();
         let mut it = lsm_tree::merge::Merger::new(iters);
         let mut items = vec![];
